@@ -162,7 +162,9 @@ func runRelay(c *fw.Ctx, sc relayScenario, rng *rand.Rand) (res relayResult) {
 		conf.PushAddrs = []string{stub.Addr}
 		// further targets that are down (nothing listens): they must not affect the healthy one
 		for k := 0; k < sc.PushDead; k++ {
-			conf.PushAddrs = append(conf.PushAddrs, fmt.Sprintf("127.0.0.1:%d", srv.FreePort()))
+			port, release := srv.DeadPort()
+			defer release()
+			conf.PushAddrs = append(conf.PushAddrs, fmt.Sprintf("127.0.0.1:%d", port))
 		}
 	}
 	s, err := srv.Start(conf, root)
